@@ -13,6 +13,7 @@ import (
 	"github.com/kercylan98/vivid/internal/future"
 	"github.com/kercylan98/vivid/pkg/log"
 	"github.com/kercylan98/vivid/pkg/metrics"
+	"github.com/kercylan98/vivid/pkg/ves"
 )
 
 // Engine gossip (C18): real cluster.NodeActor instances driven through a fake ActorContext: the
@@ -47,6 +48,10 @@ type gnode struct {
 	ref   vivid.ActorRef
 	// periodic messages the node has registered with its scheduler
 	loopGossip, loopFD bool
+	// the last ClusterLeaderChangedEvent the node published: what its users believe
+	announced bool
+	annLeader string
+	annIAm    bool
 }
 
 type gmsg struct {
@@ -114,9 +119,16 @@ func (g gsched) Cancel(ref string) error {
 	return nil
 }
 
-type ges struct{ vivid.EventStream }
+type ges struct {
+	vivid.EventStream
+	n *gnode
+}
 
-func (ges) Publish(vivid.EventStreamContext, vivid.Message) {}
+func (g ges) Publish(_ vivid.EventStreamContext, m vivid.Message) {
+	if ev, ok := m.(ves.ClusterLeaderChangedEvent); ok && g.n != nil {
+		g.n.announced, g.n.annLeader, g.n.annIAm = true, ev.LeaderAddr, ev.IAmLeader
+	}
+}
 
 func (c *gctx) Message() vivid.Message         { return c.msg }
 func (c *gctx) Sender() vivid.ActorRef         { return c.sender }
@@ -124,7 +136,7 @@ func (c *gctx) Ref() vivid.ActorRef            { return c.n.ref }
 func (c *gctx) Logger() log.Logger             { return log.NewSilentLogger() }
 func (c *gctx) System() vivid.ActorSystem      { return gsys{} }
 func (c *gctx) Scheduler() vivid.Scheduler     { return gsched{n: c.n} }
-func (c *gctx) EventStream() vivid.EventStream { return ges{} }
+func (c *gctx) EventStream() vivid.EventStream { return ges{n: c.n} }
 func (c *gctx) MetricsEnabled() bool           { return false }
 func (c *gctx) Metrics() metrics.Metrics       { return nil }
 func (c *gctx) Reply(m vivid.Message)          { c.reply, c.replied = m, true }
@@ -427,6 +439,23 @@ func (e *gossipEngine) convergenceProblem() string {
 			return fmt.Sprintf("nodes disagree on the leader (%s vs %s)", leader, l)
 		}
 	}
+	// what the nodes told their users (the last ClusterLeaderChangedEvent each published) agrees with that:
+	// exactly one node considers itself leader
+	iam := 0
+	for _, n := range e.nodes {
+		if n == nil || !n.alive || !n.announced {
+			continue
+		}
+		if n.annLeader != leader {
+			return fmt.Sprintf("node %d last announced leader %q (IAmLeader=%v) to its users, but the leader of its (converged) view is %q: the announcement was never corrected", n.idx, n.annLeader, n.annIAm, leader)
+		}
+		if n.annIAm {
+			iam++
+		}
+	}
+	if iam > 1 {
+		return fmt.Sprintf("%d nodes consider themselves leader", iam)
+	}
 	return ""
 }
 
@@ -601,6 +630,33 @@ func (e *gossipEngine) Generate(c *Ctx) {
 					}
 				})
 			}
+			// one-way loss: what the leader sends to the last node is lost for longer than the timeout but shorter than
+			// timeout + confirmation (the others hear everybody): that node suspects the leader and announces another
+			// one; after the heal the suspicion is cleared by direct gossip and the announcement must follow
+			scen(fmt.Sprintf("cfg 2000 %d 0 1500", n), "oneway-suspect", func() {
+				all()
+				settle(3, 400)
+				ld := gIdx(e.nodes[0].act.VerifLeader())
+				x := n - 1
+				if ld == x {
+					x = 0
+				}
+				for r := 0; r < 7; r++ {
+					from := len(e.bag)
+					for _, i := range alive() {
+						do(fmt.Sprintf("tick %d", i))
+					}
+					for k := from; k < len(e.bag); k++ {
+						if !(e.bag[k].from == ld && e.bag[k].to == x) {
+							do(e.recvLine(k))
+						}
+					}
+					do("adv 400")
+					for _, i := range alive() {
+						do(fmt.Sprintf("fd %d", i))
+					}
+				}
+			})
 			scen(fmt.Sprintf("cfg 2000 %d 0 1500", n), "crash-suspect", func() { all(); settle(3, 400); do(fmt.Sprintf("crash %d", n-1)) })
 			scen(fmt.Sprintf("cfg 2000 %d 0,1", n), "two-seeds", all)
 			scen(fmt.Sprintf("cfg 2000 %d 0", n), "late-crash-messages", func() {
